@@ -44,6 +44,10 @@ def gen(tier):
     wide = ["expr", ["bin", "-", ["id", "m"], ["num", 3600]]]
     for ename, ET in (("u8", G.U8), ("i16", G.I16), ("char", G.CHAR), ("u24", G.U24), ("inner", G.INNER), ("wchar", G.WCHAR)):
         yield f"{ename}[wide]", ["struct", "test", [["m", G.U16, None], ["d", G.arr(ET, wide), None], ["t", G.U8, None]], False]
+    # to-end-of-stream array of arrays whose inner length comes from an earlier field (>= 1: zero-size elements never end)
+    inner_cnt = ["expr", ["bin", "+", ["bin", "&", ["id", "n"], ["num", 1]], ["num", 1]]]
+    for ename, ET in (("u8", G.U8), ("i16", G.I16), ("char", G.CHAR), ("u24", G.U24)):
+        yield f"{ename}[EOF][field]", ["struct", "test", [["n", G.U8, None], ["d", G.arr(G.arr(ET, inner_cnt), "EOF"), None]], False]
     yield "late-const", ["struct", "test", [["n", G.U8, None], ["d", G.arr(G.U8, ["expr", ["bin", "&", ["id", "n"], ["num", 3]]]), None], ["t", G.U8, None]], False]
     yield "two-arrays", ["struct", "test", [["n", G.U8, None], ["m", G.U8, None], ["a", G.arr(G.U16, ["expr", ["bin", "&", ["id", "n"], ["num", 1]]]), None],
                                              ["b", G.arr(G.CHAR, ["expr", ["bin", "+", ["bin", "&", ["id", "m"], ["num", 1]], ["bin", "&", ["id", "n"], ["num", 1]]]]), None],
